@@ -16,8 +16,8 @@ from pwv import core, dwtu, xf
 from pwv.core import Result, lib
 
 ID = 'C15'
-RULE = ('Model-based histories: a pool of 40 fixed module configurations (every transform kind, modes, layouts, masks, scattering '
-        'families) x 3 input recipes of different shapes; each search unit owns a few (configuration, input) pairs whose GOLDEN '
+RULE_T = ('Model-based histories: a pool of %d fixed module configurations (every transform kind; neighbouring entries are twins that differ only in '
+        'mode / option; separate row-column filters; layouts, masks, scattering families) x 3 input recipes of different shapes; each search unit owns a few (configuration, input) pairs whose GOLDEN '
         'result was computed as the very first library call of a fresh interpreter. Hypothesis draws sequences of up to 40 '
         'operations: construct(cfg, default dtype) (many instances coexist), call(instance, input, no_grad | requires_grad | '
         'requires_grad+backward), concurrent batch of 2..8 calls on a thread pool (same or different instances), load of a filter '
@@ -28,31 +28,43 @@ RULE = ('Model-based histories: a pool of 40 fixed module configurations (every 
         'instance and >= 2 configurations interleaved. Distinct = operation sequence.')
 ASSUMPTIONS = ['CPU kernels are bitwise deterministic across processes and threads (measured); a mismatch within 4 ulp is counted '
                'as ulp_diff, not failed', 'thread schedules are not controlled: concurrency is stressed, not explored']
-STRATA = {'thorough': 'every pool configuration is owned by some unit (40 configurations x 3 inputs)', 'quick': ''}
+STRATA = {'thorough': 'every pool configuration (with its twin) is owned by some unit, on all 3 inputs', 'quick': ''}
 LABEL_FLOORS = {}
 
 # ---------------------------------------------------------------- fixed pool
 
 
 def _pool():
+    """Neighbouring entries are 'twins' (same kind, wavelet and sizes, different mode / option), because shared
+    process-wide state is most likely to be keyed on what twins have in common."""
     P = []
-    for w, m, J in [('db1', 'zero', 1), ('db3', 'symmetric', 2), ('bior2.4', 'periodization', 3), ('sym4', 'reflect', 1),
-                    ('db2', 'periodic', 2), ('coif1', 'periodization', 2)]:
-        P.append({'kind': 'dwt2_fwd', 'wave': w, 'mode': m, 'J': J})
-        P.append({'kind': 'dwt2_inv', 'wave': w, 'mode': m, 'J': J})
-    for w, m, J in [('db2', 'symmetric', 2), ('bior1.3', 'periodization', 2), ('db4', 'zero', 3), ('sym3', 'periodic', 1)]:
-        P.append({'kind': 'dwt1_fwd', 'wave': w, 'mode': m, 'J': J})
-        P.append({'kind': 'dwt1_inv', 'wave': w, 'mode': m, 'J': J})
+    for w, J in [('db2', 2), ('bior2.4', 3)]:
+        for m in ('symmetric', 'periodic', 'reflect', 'zero', 'periodization'):
+            P.append({'kind': 'dwt2_fwd', 'wave': w, 'mode': m, 'J': J})
+    for m in ('symmetric', 'periodic', 'zero', 'periodization'):
+        P.append({'kind': 'dwt2_inv', 'wave': 'db2', 'mode': m, 'J': 2})
+    # separate column / row filters (4-tuple form)
+    P.append({'kind': 'dwt2_fwd', 'wave': 'db2', 'wave_row': 'bior2.2', 'mode': 'zero', 'J': 2})
+    P.append({'kind': 'dwt2_fwd', 'wave': 'db3', 'wave_row': 'coif1', 'mode': 'periodization', 'J': 1})
+    P.append({'kind': 'dwt2_inv', 'wave': 'db2', 'wave_row': 'bior2.2', 'mode': 'zero', 'J': 2})
+    P.append({'kind': 'dwt2_inv', 'wave': 'db3', 'wave_row': 'coif1', 'mode': 'periodization', 'J': 1})
+    for m in ('symmetric', 'periodic', 'reflect', 'zero', 'periodization'):
+        P.append({'kind': 'dwt1_fwd', 'wave': 'db3', 'mode': m, 'J': 2})
+    for m in ('symmetric', 'periodic', 'periodization'):
+        P.append({'kind': 'dwt1_inv', 'wave': 'db3', 'mode': m, 'J': 2})
     P.append({'kind': 'swt', 'wave': 'db2', 'mode': 'periodization', 'J': 2})
-    P.append({'kind': 'swt', 'wave': 'bior2.2', 'mode': 'periodic', 'J': 1})
-    for b, q, J, o, ri, extra in [('near_sym_a', 'qshift_a', 3, 2, -1, {}), ('near_sym_b', 'qshift_d', 2, 1, 2, {}),
+    P.append({'kind': 'swt', 'wave': 'db3', 'mode': 'periodic', 'J': 1})
+    for b, q, J, o, ri, extra in [('near_sym_a', 'qshift_a', 3, 2, -1, {}), ('near_sym_a', 'qshift_06', 3, 2, -1, {}),
+                                  ('near_sym_b', 'qshift_d', 2, 1, 2, {}), ('near_sym_b', 'qshift_d', 2, 1, 2, {'mode': 'zero'}),
                                   ('antonini', 'qshift_06', 2, 4, 0, {'skip': [True, False]}),
                                   ('legall', 'qshift_c', 3, 2, 5, {'scales': [False, True, True]})]:
         P.append(dict({'kind': 'dtcwt_fwd', 'biort': b, 'qshift': q, 'J': J, 'o_dim': o, 'ri_dim': ri}, **extra))
+    for b, q, J, o, ri in [('near_sym_a', 'qshift_a', 3, 2, -1), ('near_sym_a', 'qshift_06', 3, 2, -1),
+                           ('near_sym_b', 'qshift_d', 2, 1, 2), ('antonini', 'qshift_06', 2, 4, 0)]:
         P.append({'kind': 'dtcwt_inv', 'biort': b, 'qshift': q, 'J': J, 'o_dim': o, 'ri_dim': ri})
     for k in ('afb2d', 'sfb2d', 'afb2d_nonsep', 'sfb2d_nonsep'):
         P.append({'kind': k, 'wave': 'db3', 'mode': 'periodization', 'J': 1})
-        P.append({'kind': k, 'wave': 'bior2.2', 'mode': 'symmetric', 'J': 1})
+        P.append({'kind': k, 'wave': 'db3', 'mode': 'symmetric', 'J': 1})
     P.append({'kind': 'scat1', 'biort': 'near_sym_a', 'qshift': None, 'colour': False, 'bias': 1e-2})
     P.append({'kind': 'scat1', 'biort': 'near_sym_b_bp', 'qshift': None, 'colour': True, 'bias': 1e-3})
     P.append({'kind': 'scat2', 'biort': 'near_sym_a', 'qshift': 'qshift_a', 'colour': False, 'bias': 1e-2})
@@ -61,6 +73,7 @@ def _pool():
 
 
 POOL = _pool()
+RULE = RULE_T % len(POOL)
 SIZES2 = [[16, 16], [9, 15], [24, 8]]
 SIZES1 = [[32], [21], [12]]
 INPUTS = [{'kind': 'gaussian', 'seed': 11, 'scale': 0}, {'kind': 'wide', 'seed': 12, 'scale': 0},
@@ -78,22 +91,29 @@ def cfg_with_input(ci, ii):
     if cfg.get('mode') == 'reflect':
         L = dwtu.flen(cfg['wave'])
         size = [max(n, L + 1) for n in size]
+        # reflect padding needs pad < size at every level; J belongs to the module, so it must suit all three inputs
+        allsz = [[max(n, L + 1) for n in sz] for sz in (SIZES1 if one_d else SIZES2)]
+        cfg['J'] = max(1, min(xf._safe_reflect(sz, L, cfg['J']) for sz in allsz))
     cfg['size'] = size
     N, C = [(2, 3), (1, 3), (3, 3)][ii] if xf.needs_three_channels(cfg) else [(2, 2), (1, 3), (3, 1)][ii]
     return cfg, N, C, INPUTS[ii]
 
 
 def plan(tier):
-    n_units = 16 if tier == 'quick' else 40
+    n_units = 16 if tier == 'quick' else len(POOL)
+    seed_rot = 2 * (int(os.environ.get('VERIF_SEED', '1') or '1') % (len(POOL) // 2))   # twins stay paired
     units = []
     for u in range(n_units):
         if tier == 'quick':
-            c1, c2 = (5 * u) % len(POOL), (5 * u + 17) % len(POOL)
-            own = [(c1, u % 3), (c1, (u + 1) % 3), (c2, (u + 1) % 3), (c2, (u + 2) % 3)]
+            # a configuration and its twin (the next pool entry), on the same input shapes
+            c1 = (2 * u + seed_rot) % len(POOL)
+            c2 = (c1 + 1) % len(POOL)
+            own = [(c1, u % 3), (c1, (u + 1) % 3), (c2, u % 3), (c2, (u + 1) % 3)]
             units.append({'n': 8, 'own': own})
         else:
-            c1, c2 = u % len(POOL), (u * 7 + 3) % len(POOL)
-            own = [(c1, i) for i in range(3)] + [(c2, u % 3), (c2, (u + 1) % 3)]
+            c1 = u % len(POOL)
+            c2, c3 = (c1 + 1) % len(POOL), (u * 7 + 3) % len(POOL)
+            own = [(c1, i) for i in range(3)] + [(c2, i) for i in range(3)] + [(c3, u % 3)]
             units.append({'n': 30, 'own': own})
     return units
 
@@ -314,7 +334,7 @@ def run_case(case):
 
 
 LEVEL_TEXT = ('Model-based generated histories (construct / call in three autograd modes / concurrent thread batches / table loads / '
-              'dtype round trips / other-precision calls / drops) over a pool of 40 configurations covering every transform; after '
+              'dtype round trips / other-precision calls / drops) over a pool of ~50 configurations covering every transform; after '
               'every step the arguments must be bitwise untouched, module state unchanged, and the result bitwise equal to a golden '
               'computed as the first call of a fresh interpreter. Thread interleavings are stressed with real thread pools, not '
               'enumerated.')
